@@ -44,6 +44,9 @@ type Plan struct {
 	From    int      `json:"from,omitempty"`
 	To      int      `json:"to,omitempty"`
 	Spaces  int      `json:"spaces,omitempty"` // printing style
+	// PolicyOnly: no cryptography; the policy object is parsed once and then observed many
+	// times (Satisfaction, String, ExtractAttributeValuePairs) in an order drawn from Seed
+	PolicyOnly bool `json:"policy_only,omitempty"`
 }
 
 var labels = []string{"a", "b", "c"}
@@ -66,6 +69,19 @@ func genNode(r *core.PRNG, leaves int) *Node {
 }
 
 func gen(r *core.PRNG, tier string) any {
+	if r.Chance(2, 5) {
+		p := &Plan{Seed: r.Uint64(), Policy: genNode(r, r.Range(1, 12)), Spaces: r.Intn(3), PolicyOnly: true}
+		for i, n := 0, r.Range(2, 8); i < n; i++ {
+			h := Holder{Attrs: map[string]string{}}
+			for _, l := range labels {
+				if r.Chance(3, 4) {
+					h.Attrs[l] = values[r.Intn(3)]
+				}
+			}
+			p.Holders = append(p.Holders, h)
+		}
+		return p
+	}
 	p := &Plan{Seed: r.Uint64(), Sys: r.Intn(3), Policy: genNode(r, r.Range(1, 7)), MsgLen: r.EdgeLen(120, 0, 1, 16, 32), Spaces: r.Intn(3), Pos: r.Intn(1 << 20)}
 	if r.Chance(1, 4) {
 		p.Chunk = r.Range(1, 7)
@@ -167,7 +183,7 @@ func (n *Node) eval(attrs map[string]string, neg bool) bool {
 }
 
 func (n *Node) valid(depth int) bool {
-	if n == nil || depth > 12 {
+	if n == nil || depth > 40 {
 		return false
 	}
 	switch n.Op {
@@ -217,7 +233,7 @@ func exec(planJSON []byte, run *core.Run) {
 		run.Bad("json")
 		return
 	}
-	if !p.Policy.valid(0) || len(p.Holders) == 0 || len(p.Holders) > 4 || p.MsgLen < 0 || p.MsgLen > 2000 || p.Sys < 0 || p.Sys > 2 {
+	if !p.Policy.valid(0) || len(p.Holders) == 0 || (len(p.Holders) > 4 && !p.PolicyOnly) || len(p.Holders) > 12 || p.MsgLen < 0 || p.MsgLen > 2000 || p.Sys < 0 || p.Sys > 2 {
 		run.Bad("plan")
 		return
 	}
@@ -225,6 +241,10 @@ func exec(planJSON []byte, run *core.Run) {
 	ent := core.NewStream(p.Seed)
 	if p.Chunk > 0 {
 		ent.MaxChunk = p.Chunk
+	}
+	if p.PolicyOnly {
+		execPolicyOnly(&p, run, comp)
+		return
 	}
 	rand.Reader = core.NewStream(p.Seed + 5)
 	auth := getAuthority(p.Sys)
@@ -407,6 +427,85 @@ func exec(planJSON []byte, run *core.Run) {
 			return
 		}
 	}
+	// the policy object was used for encryption and asked for satisfaction meanwhile:
+	// it still prints as it did at the start
+	if again := pol.String(); again != printed {
+		run.Violate(comp+".Policy.String", "printed-form-changes-with-history", "%q prints as %q at first and as %q after Encrypt / Satisfaction", src, printed, again)
+	}
+}
+
+// execPolicyOnly: one policy object, observed repeatedly. Observers must not change what
+// later observers see: the printed form is the same before and after Satisfaction, parses
+// back to a policy with the same semantics, and Satisfaction keeps agreeing with the
+// stated semantics however often and in whatever order it is asked.
+func execPolicyOnly(p *Plan, run *core.Run, comp string) {
+	src := p.Policy.print(p.Spaces)
+	var pol tkn20.Policy
+	if err := pol.FromString(src); err != nil {
+		run.Violate(comp+".Policy.FromString", "rejects-valid-policy", "%q: %v", src, err)
+		return
+	}
+	run.T("policy-only", abstract(p.Policy))
+	run.Fault("history:policy-object-observed-repeatedly")
+	r := core.NewPRNG(p.Seed)
+	first := ""
+	checkPrint := func(when string) bool {
+		var printed string
+		pan, v, st := core.Try(func() { printed = pol.String() })
+		if pan {
+			run.Violate(comp+".Policy.String", core.PanicClass(v), "%q %s: %s at %s", src, when, v, st)
+			return false
+		}
+		if first == "" {
+			first = printed
+		} else if printed != first {
+			run.Violate(comp+".Policy.String", "printed-form-changes-with-history", "%q prints as %q at first and as %q %s", src, first, printed, when)
+			return false
+		}
+		var back tkn20.Policy
+		if err := back.FromString(printed); err != nil {
+			run.Violate(comp+".Policy.String", "printed-policy-does-not-parse", "%q printed (%s) as %q: %v", src, when, printed, err)
+			return false
+		}
+		for _, h := range p.Holders {
+			var attrs tkn20.Attributes
+			attrs.FromMap(h.Attrs)
+			if got, want := back.Satisfaction(attrs), p.Policy.eval(h.Attrs, false); got != want {
+				run.Violate(comp+".Policy.String", "printed-policy-has-other-semantics", "%q printed (%s) as %q: attributes %v satisfy=%v, the original's semantics give %v", src, when, printed, h.Attrs, got, want)
+				return false
+			}
+		}
+		return true
+	}
+	if r.Chance(1, 2) && !checkPrint("before any use") {
+		return
+	}
+	for round := 0; round < 3; round++ {
+		for _, i := range r.Perm(len(p.Holders)) {
+			h := p.Holders[i]
+			var attrs tkn20.Attributes
+			attrs.FromMap(h.Attrs)
+			want := p.Policy.eval(h.Attrs, false)
+			var got bool
+			pan, v, st := core.Try(func() { got = pol.Satisfaction(attrs) })
+			if pan {
+				run.Violate(comp+".Policy.Satisfaction", core.PanicClass(v), "%q attributes %v: %s at %s", src, h.Attrs, v, st)
+				return
+			}
+			run.Tick(1)
+			if got != want {
+				run.Violate(comp+".Policy.Satisfaction", "differs-from-policy-semantics", "policy %q (round %d on the same object), attributes %v: Satisfaction=%v, the stated semantics give %v", src, round, h.Attrs, got, want)
+				return
+			}
+			if r.Chance(1, 3) {
+				pol.ExtractAttributeValuePairs()
+			}
+		}
+		if !checkPrint(fmt.Sprintf("after %d rounds of Satisfaction", round+1)) {
+			return
+		}
+	}
+	run.Event("policy-only", src, first)
 }
 
 func abstract(n *Node) string {
